@@ -789,6 +789,10 @@ func runC05(tier string) *vf.Run {
 		"liveness is restated as bounded progress: after the fault the supervisor restarts a dead child, resumes paused tasks and keeps ticking; a row counts as LOST only when a later row of the same stream was acked in the last incarnation; otherwise the case is inconclusive",
 	}
 	nInputs := run.Pick(3, 9)
+	if os.Getenv("C05_PART") == "op" { // debug: the operation-channel part alone
+		runC05op(run)
+		return run
+	}
 	var cases []*c05Case
 	// baseline runs first (sequentially cheap): they size the enumeration
 	type base struct{ acks, puts, dataAcks int }
@@ -934,6 +938,9 @@ func runC05(tier string) *vf.Run {
 		run.Count("replayed_drops_judged_for_frozen_checkpoints", r.frozenJudged)
 	})
 	run.Extra("enumerated_fault_cases", len(cases))
+	if os.Getenv("C05_ONLY") == "" {
+		runC05op(run)
+	}
 	run.Floor("faults_delivered_at_intended_step", len(cases)*6/10)
 	run.Floor("delivered_kill-at-ack", 2)
 	run.Floor("delivered_kill-before-put", 2)
